@@ -355,12 +355,54 @@ def _is_inert(s: ast.stmt) -> bool:
     return False
 
 
+def _canonical_receivers(tree: ast.AST):
+    """first parameter of every (non-static) method is named `self` (`cls` for classmethods)"""
+    for c in [n for n in ast.walk(tree) if isinstance(n, ast.ClassDef)]:
+        for m in c.body:
+            if not isinstance(m, (ast.FunctionDef, ast.AsyncFunctionDef)) or not m.args.args:
+                continue
+            decos = [ast.unparse(d) for d in m.decorator_list]
+            if any(d.endswith("staticmethod") for d in decos):
+                continue
+            want = "cls" if any(d.endswith("classmethod") for d in decos) else "self"
+            old = m.args.args[0].arg
+            if old == want or any(isinstance(x, ast.Name) and x.id == want for x in ast.walk(m)):
+                continue
+            for x in ast.walk(m):
+                if isinstance(x, ast.Name) and x.id == old:
+                    x.id = want
+                elif isinstance(x, ast.arg) and x.arg == old:
+                    x.arg = want
+
+
+_FLIP = {ast.Lt: ast.Gt, ast.Gt: ast.Lt, ast.LtE: ast.GtE, ast.GtE: ast.LtE, ast.Eq: ast.Eq, ast.NotEq: ast.NotEq}
+
+
+def _cmp_key(e: ast.AST):
+    rank = 2 if isinstance(e, ast.Constant) or (isinstance(e, ast.UnaryOp) and isinstance(e.operand, ast.Constant)) else (1 if isinstance(e, ast.Name) else 0)
+    return (rank, ast.unparse(e))
+
+
+def _canonical_comparisons(tree: ast.AST):
+    """single comparisons with <, <=, >, >=, ==, != get a canonical operand order (complex expression left, constant right, ties by text),
+    so that `a < b` and `b > a` are the same construct for every rule.  Comparisons with None and chained comparisons are left alone."""
+    for n in ast.walk(tree):
+        if isinstance(n, ast.Compare) and len(n.ops) == 1 and type(n.ops[0]) in _FLIP:
+            l, r = n.left, n.comparators[0]
+            if any(isinstance(x, ast.Constant) and x.value is None for x in (l, r)):
+                continue
+            if _cmp_key(l) > _cmp_key(r):
+                n.left, n.comparators, n.ops = r, [l], [_FLIP[type(n.ops[0])]()]
+
+
 def normalise_tree(tree: ast.AST) -> int:
     """In-place canonicalisation applied to every module before any analysis, so that the rules do not depend on incidental syntax:
       * `x: T = v`  becomes  `x = v`  (the annotation is kept on the node as `.ann` for type inference);
       * inert statements are dropped inside functions: docstrings, `pass`, logging calls whose arguments are effect-free.
     Returns the number of statements dropped."""
     removed = 0
+    _canonical_receivers(tree)
+    _canonical_comparisons(tree)
     for fn in [n for n in ast.walk(tree) if isinstance(n, (ast.FunctionDef, ast.AsyncFunctionDef))]:
         for node in ast.walk(fn):
             for fld in ("body", "orelse", "finalbody"):
